@@ -20,7 +20,7 @@ P = {
     'technique': 'Coq proof (per-call exactness + accounting by induction over bank-call histories) + differential correspondence and '
                  'property oracle on real slash / proposal / burn events',
     'drivers': [
-        {'name': 'burns', 'n': {'quick': 60, 'thorough': 3000}, 'shrink_field': 'ops', 'batch': 500},
+        {'name': 'burns', 'n': {'quick': 60, 'thorough': 2000}, 'shrink_field': 'ops', 'batch': 500},
     ],
     'coq_header': 'From HV Require Import Dao.LedgerModel Bank.BurnModel.\nFrom Coq Require Import ZArith NArith List.\nImport ListNotations.',
     'lists': {'cases': {'type': 'list event', 'check': 'mismatches', 'shard': 8}},
